@@ -8,14 +8,21 @@
   listing it was built from, so original and restored level trade in the same order *iff* the
   original's hand-out order equals its timestamp-sorted listing at the moment of the snapshot
   (and the continuation does not meet a stale ticket of the original, C04/F2).
-  NOT proved: the lifting of "same map and same hand-out order" to equal outputs for every
-  continuation (a bisimulation up to the order of the map's entries).
+  The lifting to continuations is proved for continuations made of match requests
+  (`C11_matches`, via a lockstep bisimulation of the match loop on two ticket queues that hand out
+  the same orders in the same order, `loop_sim`, and the irrelevance of the statistics,
+  `loop_stats_irrel`): on such a level the restored copy answers every sequence of matches with
+  identical transactions, ids, remaining quantities and filled lists. NOT lifted: continuations
+  that also add, cancel or amend (each preserves the relation by `C04_partial`, but the combined
+  induction over all operation kinds is not written).
 -/
 import PLV.Lemmas.Restore
 import PLV.Props.C19
+import PLV.Props.C04
+import PLV.Props.C10
 
 namespace PLV.C11
-open PLV
+open PLV PLV.C04
 
 def live (l : Level) : List Order := liveOrder l.map l.tickets
 
@@ -31,6 +38,366 @@ theorem C11_partial {l : Level} (h : l.Inv) :
     live (Level.fromSnapshot l.snapshot) = live l ↔ live l = l.listing := by
   rw [C11_restored_order l.snapshot h.snapshot_good]
   exact ⟨fun e => e.symm, fun e => e.symm⟩
+
+/-! ### lifting to continuations of match requests -/
+
+/-- two queue states that hand out the same orders in the same order and agree on every lookup -/
+structure SimQ (m1 : OMap) (ts1 : List Id) (m2 : OMap) (ts2 : List Id) : Prop where
+  live : liveOrder m1 ts1 = liveOrder m2 ts2
+  find : ∀ id, m1.find id = m2.find id
+
+theorem simq_pop {m1 ts1 m2 ts2} (h : SimQ m1 ts1 m2 ts2) :
+    (popLive m1 ts1 = none ∧ popLive m2 ts2 = none) ∨
+    ∃ o m1' ts1' m2' ts2', popLive m1 ts1 = some (o, m1', ts1') ∧ popLive m2 ts2 = some (o, m2', ts2') ∧
+      liveOrder m1' ts1' = liveOrder m2' ts2' ∧ m1' = m1.erase o.id ∧ m2' = m2.erase o.id := by
+  have p1 := pop_liveOrder m1 ts1
+  have p2 := pop_liveOrder m2 ts2
+  cases h1 : popLive m1 ts1 with
+  | none =>
+    rw [h1] at p1
+    cases h2 : popLive m2 ts2 with
+    | none => exact Or.inl ⟨rfl, rfl⟩
+    | some x =>
+      obtain ⟨o, m2', ts2'⟩ := x
+      rw [h2] at p2; simp only at p1 p2
+      rw [h.live, p2] at p1; simp at p1
+  | some x =>
+    obtain ⟨o, m1', ts1'⟩ := x
+    rw [h1] at p1
+    cases h2 : popLive m2 ts2 with
+    | none => rw [h2] at p2; simp only at p1 p2; rw [h.live, p2] at p1; simp at p1
+    | some y =>
+      obtain ⟨o2, m2', ts2'⟩ := y
+      rw [h2] at p2; simp only at p1 p2
+      rw [h.live, p2] at p1
+      simp only [List.cons.injEq] at p1
+      obtain ⟨rfl, hl⟩ := p1
+      exact Or.inr ⟨_, _, _, _, _, rfl, rfl, hl.symm, (popLive_spec h1).2.1, (popLive_spec h2).2.1⟩
+
+
+theorem find_erase_agree {m1 m2 : OMap} (h : ∀ id, m1.find id = m2.find id) (t : Id) :
+    ∀ id, (m1.erase t).find id = (m2.erase t).find id := by
+  intro id
+  by_cases e : id = t
+  · subst e; rw [find_erase_self, find_erase_self]
+  · rw [find_erase_ne e, find_erase_ne e]; exact h id
+
+theorem find_insert_agree {m1 m2 : OMap} (h : ∀ id, m1.find id = m2.find id) (u : Order) :
+    ∀ id, (m1.insert u).find id = (m2.insert u).find id := by
+  intro id
+  by_cases e : id = u.id
+  · subst e; rw [find_insert_same, find_insert_same]
+  · rw [find_insert_ne e, find_insert_ne e]; exact h id
+
+/-! one-step unfoldings of the match loop, by what `pop` returns -/
+
+theorem matchLoop_zero (price : Nat) (taker : Id) (m : OMap) (ts : List Id) (a : Acc) :
+    matchLoop price taker 0 m ts a = (0, m, ts, a) := by
+  rw [matchLoop]; simp
+
+theorem matchLoop_none (price : Nat) (taker : Id) (rem : Nat) (m : OMap) (ts : List Id) (a : Acc) (hz : rem ≠ 0)
+    (hp : popLive m ts = none) : matchLoop price taker rem m ts a = (rem, m, [], a) := by
+  rw [matchLoop]; simp only [dif_neg hz]
+  split
+  · rfl
+  · rename_i o m' ts' heq; rw [hp] at heq; simp at heq
+
+theorem matchLoop_some (price : Nat) (taker : Id) (rem : Nat) (m : OMap) (ts : List Id) (a : Acc) (hz : rem ≠ 0)
+    {o : Order} {m' : OMap} {ts' : List Id} (hp : popLive m ts = some (o, m', ts')) :
+    matchLoop price taker rem m ts a =
+      (match (matchAgainst o rem).updated with
+       | some u =>
+         if (matchAgainst o rem).consumed = 0 ∧ (matchAgainst o rem).hiddenRed = 0 then
+           matchLoop price taker (matchAgainst o rem).remaining m' ts' ((a.visit price taker o (matchAgainst o rem)).pushAside u)
+         else
+           matchLoop price taker (matchAgainst o rem).remaining (m'.insert u) (ts' ++ [u.id])
+             ((a.visit price taker o (matchAgainst o rem)).requeue (matchAgainst o rem).hiddenRed)
+       | none =>
+         matchLoop price taker (matchAgainst o rem).remaining m' ts'
+           ((a.visit price taker o (matchAgainst o rem)).leave o (matchAgainst o rem).hiddenRed)) := by
+  rw [matchLoop]; simp only [dif_neg hz]
+  split
+  · rename_i heq; rw [hp] at heq; simp at heq
+  · rename_i o2 m2 ts2 heq
+    rw [hp] at heq
+    simp only [Option.some.injEq, Prod.mk.injEq] at heq
+    obtain ⟨rfl, rfl, rfl⟩ := heq
+    split
+    · rename_i u hu
+      simp only [hu]
+      split <;> rfl
+    · rename_i hu
+      simp only [hu]
+
+/-- **lockstep**: two ticket queues that hand out the same orders in the same order (and have no
+    duplicate tickets) take the match loop through the same visits: same remaining quantity, same
+    accumulator (transactions, filled ids, counters, statistics, set-aside orders), and they are
+    again in the same relation afterwards -/
+theorem loop_sim (price : Nat) (taker : Id) (rem : Nat) (m1 : OMap) (ts1 : List Id) (a : Acc) :
+    ∀ (m2 : OMap) (ts2 : List Id), SimQ m1 ts1 m2 ts2 → QInv m1 ts1 a → QInv m2 ts2 a →
+      (matchLoop price taker rem m1 ts1 a).1 = (matchLoop price taker rem m2 ts2 a).1 ∧
+      (matchLoop price taker rem m1 ts1 a).2.2.2 = (matchLoop price taker rem m2 ts2 a).2.2.2 ∧
+      SimQ (matchLoop price taker rem m1 ts1 a).2.1 (matchLoop price taker rem m1 ts1 a).2.2.1
+        (matchLoop price taker rem m2 ts2 a).2.1 (matchLoop price taker rem m2 ts2 a).2.2.1 := by
+  fun_induction matchLoop price taker rem m1 ts1 a with
+  | case1 m1 ts1 a =>
+    intro m2 ts2 hs _ _
+    rw [matchLoop_zero]
+    exact ⟨rfl, rfl, hs⟩
+  | case2 rem m1 ts1 a hz hp =>
+    intro m2 ts2 hs _ _
+    rcases simq_pop hs with ⟨_, h2⟩ | ⟨o, _, _, _, _, h1, _⟩
+    · rw [matchLoop_none _ _ _ _ _ _ hz h2]
+      exact ⟨rfl, rfl, ⟨by simp [liveOrder], hs.find⟩⟩
+    · rw [hp] at h1; simp at h1
+  | case3 rem m1 ts1 a hz o m1' ts1' hp r a2 u hu hs' ih =>
+    intro m2 ts2 hs hi1 hi2
+    rcases simq_pop hs with ⟨h1, _⟩ | ⟨o2, m1x, ts1x, m2', ts2', h1, h2, hl, e1, e2⟩
+    · rw [hp] at h1; simp at h1
+    · rw [hp] at h1; simp only [Option.some.injEq, Prod.mk.injEq] at h1
+      obtain ⟨rfl, rfl, rfl⟩ := h1
+      rw [matchLoop_some _ _ _ _ _ _ hz h2]
+      simp only [show (matchAgainst o rem).updated = some u from hu]
+      rw [if_pos (show (matchAgainst o rem).consumed = 0 ∧ (matchAgainst o rem).hiddenRed = 0 from hs')]
+      have hq1 := (hi1.step_aside price taker hp hu)
+      have hq2 := (hi2.step_aside price taker h2 hu)
+      exact ih m2' ts2' ⟨hl, by rw [e1, e2]; exact find_erase_agree hs.find _⟩ hq1 hq2
+  | case4 rem m1 ts1 a hz o m1' ts1' hp r a2 u hu hs' ih =>
+    intro m2 ts2 hs hi1 hi2
+    rcases simq_pop hs with ⟨h1, _⟩ | ⟨o2, m1x, ts1x, m2', ts2', h1, h2, hl, e1, e2⟩
+    · rw [hp] at h1; simp at h1
+    · rw [hp] at h1; simp only [Option.some.injEq, Prod.mk.injEq] at h1
+      obtain ⟨rfl, rfl, rfl⟩ := h1
+      rw [matchLoop_some _ _ _ _ _ _ hz h2]
+      simp only [show (matchAgainst o rem).updated = some u from hu]
+      rw [if_neg (show ¬ ((matchAgainst o rem).consumed = 0 ∧ (matchAgainst o rem).hiddenRed = 0) from hs')]
+      have hq1 := (hi1.step_back price taker hp hu)
+      have hq2 := (hi2.step_back price taker h2 hu)
+      obtain ⟨n1, n2, n3, n4, _, _, _, _⟩ := hi1.popped hp
+      obtain ⟨k1, k2, k3, k4, _, _, _, _⟩ := hi2.popped h2
+      have hid := (ma_stay o u rem hu).1
+      refine ih (m2'.insert u) (ts2' ++ [u.id]) ⟨?_, ?_⟩ hq1 hq2
+      · rw [liveOrder_push_fresh u ts1' m1' (hid ▸ n2) (hid ▸ n4), liveOrder_push_fresh u ts2' m2' (hid ▸ k2) (hid ▸ k4), hl]
+      · rw [e1, e2]; exact find_insert_agree (find_erase_agree hs.find _) u
+  | case5 rem m1 ts1 a hz o m1' ts1' hp r a2 hu ih =>
+    intro m2 ts2 hs hi1 hi2
+    rcases simq_pop hs with ⟨h1, _⟩ | ⟨o2, m1x, ts1x, m2', ts2', h1, h2, hl, e1, e2⟩
+    · rw [hp] at h1; simp at h1
+    · rw [hp] at h1; simp only [Option.some.injEq, Prod.mk.injEq] at h1
+      obtain ⟨rfl, rfl, rfl⟩ := h1
+      rw [matchLoop_some _ _ _ _ _ _ hz h2]
+      simp only [show (matchAgainst o rem).updated = none from hu]
+      have hq1 := (hi1.step_leave price taker (rem := rem) hp)
+      have hq2 := (hi2.step_leave price taker (rem := rem) h2)
+      exact ih m2' ts2' ⟨hl, by rw [e1, e2]; exact find_erase_agree hs.find _⟩ hq1 hq2
+
+
+theorem visit_with_stats (a : Acc) (s' : Stats) (p : Nat) (t : Id) (o : Order) (r : MatchOut) :
+    ({ a with stats := s' } : Acc).visit p t o r = { a.visit p t o r with stats := s'.recordExec r.consumed o.price } := by
+  by_cases h : r.consumed > 0 <;> simp [Acc.visit, h]
+
+theorem requeue_with_stats (a : Acc) (s' : Stats) (hr : Nat) :
+    ({ a with stats := s' } : Acc).requeue hr = { a.requeue hr with stats := s' } := by
+  by_cases h : hr > 0 <;> simp [Acc.requeue, h]
+
+/-- the statistics never influence a match: same loop, other statistics, same everything else -/
+theorem loop_stats_irrel (price : Nat) (taker : Id) (rem : Nat) (m : OMap) (ts : List Id) (a : Acc) :
+    ∀ (s' : Stats), ∃ s'',
+      matchLoop price taker rem m ts { a with stats := s' } =
+        ((matchLoop price taker rem m ts a).1, (matchLoop price taker rem m ts a).2.1, (matchLoop price taker rem m ts a).2.2.1,
+          { (matchLoop price taker rem m ts a).2.2.2 with stats := s'' }) := by
+  fun_induction matchLoop price taker rem m ts a with
+  | case1 m ts a => intro s'; exact ⟨s', by rw [matchLoop_zero]⟩
+  | case2 rem m ts a hz hp => intro s'; exact ⟨s', by rw [matchLoop_none _ _ _ _ _ _ hz hp]⟩
+  | case3 rem m ts a hz o m' ts' hp r a2 u hu hs ih =>
+    intro s'
+    obtain ⟨s'', h⟩ := ih (s'.recordExec (matchAgainst o rem).consumed o.price)
+    refine ⟨s'', ?_⟩
+    rw [matchLoop_some _ _ _ _ _ _ hz hp]
+    simp only [show (matchAgainst o rem).updated = some u from hu]
+    rw [if_pos (show (matchAgainst o rem).consumed = 0 ∧ (matchAgainst o rem).hiddenRed = 0 from hs), visit_with_stats]
+    exact h
+  | case4 rem m ts a hz o m' ts' hp r a2 u hu hs ih =>
+    intro s'
+    obtain ⟨s'', h⟩ := ih (s'.recordExec (matchAgainst o rem).consumed o.price)
+    refine ⟨s'', ?_⟩
+    rw [matchLoop_some _ _ _ _ _ _ hz hp]
+    simp only [show (matchAgainst o rem).updated = some u from hu]
+    rw [if_neg (show ¬ ((matchAgainst o rem).consumed = 0 ∧ (matchAgainst o rem).hiddenRed = 0) from hs), visit_with_stats,
+      requeue_with_stats]
+    exact h
+  | case5 rem m ts a hz o m' ts' hp r a2 hu ih =>
+    intro s'
+    obtain ⟨s'', h⟩ := ih (s'.recordExec (matchAgainst o rem).consumed o.price)
+    refine ⟨s'', ?_⟩
+    rw [matchLoop_some _ _ _ _ _ _ hz hp]
+    simp only [show (matchAgainst o rem).updated = none from hu]
+    rw [visit_with_stats]
+    exact h
+
+
+theorem requeueAside_nodup (aside : List Order) : ∀ (m : OMap) (ts : List Id),
+    (∀ x ∈ ids aside, x ∉ ids m) → (∀ x ∈ ids aside, x ∉ ts) → (ids aside).Nodup → ts.Nodup → (ids m).Nodup →
+    (requeueAside m ts aside).2.Nodup ∧ (ids (requeueAside m ts aside).1).Nodup := by
+  induction aside with
+  | nil => intro m ts _ _ _ t n; exact ⟨t, n⟩
+  | cons o rest ih =>
+    intro m ts a b hn t n
+    simp only [ids_cons, List.nodup_cons] at hn
+    simp only [requeueAside]
+    apply ih (m.insert o) (ts ++ [o.id])
+    · intro x hx; rw [ids_insert]; rintro (h | rfl)
+      · exact a x (by simp [hx]) h
+      · exact hn.1 hx
+    · intro x hx; simp only [List.mem_append, List.mem_cons, List.not_mem_nil, or_false]; rintro (h | rfl)
+      · exact b x (by simp [hx]) h
+      · exact hn.1 hx
+    · exact hn.2
+    · rw [List.nodup_append]; exact ⟨t, by simp, by intro x hx y hy; simp at hy; subst hy; intro e; subst e; exact b _ (by simp) hx⟩
+    · exact nodup_insert o n
+
+/-- re-queueing the same set-aside orders keeps two queues in the relation, without duplicate tickets -/
+theorem requeueAside_sim (aside : List Order) : ∀ (m1 : OMap) (ts1 : List Id) (m2 : OMap) (ts2 : List Id),
+    SimQ m1 ts1 m2 ts2 →
+    (∀ x ∈ ids aside, x ∉ ids m1) → (∀ x ∈ ids aside, x ∉ ts1) → (∀ x ∈ ids aside, x ∉ ids m2) → (∀ x ∈ ids aside, x ∉ ts2) →
+    (ids aside).Nodup → ts1.Nodup → ts2.Nodup → (ids m1).Nodup → (ids m2).Nodup →
+    SimQ (requeueAside m1 ts1 aside).1 (requeueAside m1 ts1 aside).2 (requeueAside m2 ts2 aside).1 (requeueAside m2 ts2 aside).2 ∧
+      (requeueAside m1 ts1 aside).2.Nodup ∧ (requeueAside m2 ts2 aside).2.Nodup ∧
+      (ids (requeueAside m1 ts1 aside).1).Nodup ∧ (ids (requeueAside m2 ts2 aside).1).Nodup := by
+  intro m1 ts1 m2 ts2 hs a1 b1 a2 b2 hn t1 t2 n1 n2
+  have l1 := requeueAside_live aside m1 ts1 a1 b1 hn
+  have l2 := requeueAside_live aside m2 ts2 a2 b2 hn
+  refine ⟨⟨by rw [l1, l2, hs.live], ?_⟩, ?_, ?_, ?_, ?_⟩
+  · clear l1 l2
+    induction aside generalizing m1 ts1 m2 ts2 with
+    | nil => simpa [requeueAside] using hs.find
+    | cons o rest ih =>
+      simp only [ids_cons, List.nodup_cons] at hn
+      simp only [requeueAside]
+      apply ih (m1.insert o) (ts1 ++ [o.id]) (m2.insert o) (ts2 ++ [o.id])
+      · exact ⟨by
+          rw [liveOrder_push_fresh o ts1 m1 (b1 _ (by simp)) (a1 _ (by simp)),
+            liveOrder_push_fresh o ts2 m2 (b2 _ (by simp)) (a2 _ (by simp)), hs.live], find_insert_agree hs.find o⟩
+      · intro x hx; rw [ids_insert]; rintro (h | rfl)
+        · exact a1 x (by simp [hx]) h
+        · exact hn.1 hx
+      · intro x hx; simp only [List.mem_append, List.mem_cons, List.not_mem_nil, or_false]; rintro (h | rfl)
+        · exact b1 x (by simp [hx]) h
+        · exact hn.1 hx
+      · intro x hx; rw [ids_insert]; rintro (h | rfl)
+        · exact a2 x (by simp [hx]) h
+        · exact hn.1 hx
+      · intro x hx; simp only [List.mem_append, List.mem_cons, List.not_mem_nil, or_false]; rintro (h | rfl)
+        · exact b2 x (by simp [hx]) h
+        · exact hn.1 hx
+      · exact hn.2
+      · rw [List.nodup_append]; exact ⟨t1, by simp, by intro x hx y hy; simp at hy; subst hy; intro e; subst e; exact b1 _ (by simp) hx⟩
+      · rw [List.nodup_append]; exact ⟨t2, by simp, by intro x hx y hy; simp at hy; subst hy; intro e; subst e; exact b2 _ (by simp) hx⟩
+      · exact nodup_insert o n1
+      · exact nodup_insert o n2
+  · exact (requeueAside_nodup aside m1 ts1 a1 b1 hn t1 n1).1
+  · exact (requeueAside_nodup aside m2 ts2 a2 b2 hn t2 n2).1
+  · exact (requeueAside_nodup aside m1 ts1 a1 b1 hn t1 n1).2
+  · exact (requeueAside_nodup aside m2 ts2 a2 b2 hn t2 n2).2
+
+
+/-- two levels that a trader cannot tell apart: same price and aggregates, the same orders under
+    every id, the same hand-out order, no duplicate tickets -/
+structure LSim (l1 l2 : Level) : Prop where
+  price : l1.price = l2.price
+  vis : l1.vis = l2.vis
+  hid : l1.hid = l2.hid
+  cnt : l1.cnt = l2.cnt
+  q : SimQ l1.map l1.tickets l2.map l2.tickets
+  t1 : l1.tickets.Nodup
+  t2 : l2.tickets.Nodup
+  n1 : (ids l1.map).Nodup
+  n2 : (ids l2.map).Nodup
+
+/-- **one match on indistinguishable levels**: the same match result (transactions with their ids,
+    makers, quantities; remaining quantity; completion flag; filled ids), the same generator counter
+    afterwards, and the levels are indistinguishable again -/
+theorem match_sim {l1 l2 : Level} (h : LSim l1 l2) (q : Nat) (taker : Id) (g : Nat) :
+    (l1.matchOrder q taker g).2 = (l2.matchOrder q taker g).2 ∧
+      LSim (l1.matchOrder q taker g).1 (l2.matchOrder q taker g).1 := by
+  let a1 : Acc := { vis := l1.vis, hid := l1.hid, cnt := l1.cnt, stats := l1.stats, g := g }
+  have ha2 : ({ vis := l2.vis, hid := l2.hid, cnt := l2.cnt, stats := l2.stats, g := g } : Acc) = { a1 with stats := l2.stats } := by
+    simp [a1, h.vis, h.hid, h.cnt]
+  have hi1 : QInv l1.map l1.tickets a1 := ⟨h.t1, h.n1, by simp [a1], by simp [a1], by simp [a1]⟩
+  have hi2 : QInv l2.map l2.tickets a1 := ⟨h.t2, h.n2, by simp [a1], by simp [a1], by simp [a1]⟩
+  obtain ⟨e1, e2, e3⟩ := loop_sim l1.price taker q l1.map l1.tickets a1 l2.map l2.tickets h.q hi1 hi2
+  obtain ⟨s'', hirr⟩ := loop_stats_irrel l1.price taker q l2.map l2.tickets a1 l2.stats
+  obtain ⟨q1, _⟩ := C04_loop_sweeps l1.price taker q l1.map l1.tickets a1 hi1
+  obtain ⟨q2, _⟩ := C04_loop_sweeps l1.price taker q l2.map l2.tickets a1 hi2
+  have hrq := requeueAside_sim (matchLoop l1.price taker q l1.map l1.tickets a1).2.2.2.aside _ _ _ _ e3
+    q1.am q1.at' (e2 ▸ q2.am) (e2 ▸ q2.at') q1.an q1.tn q2.tn q1.mn q2.mn
+  have hR2 : matchLoop l2.price taker q l2.map l2.tickets { vis := l2.vis, hid := l2.hid, cnt := l2.cnt, stats := l2.stats, g := g } =
+      ((matchLoop l1.price taker q l2.map l2.tickets a1).1, (matchLoop l1.price taker q l2.map l2.tickets a1).2.1,
+        (matchLoop l1.price taker q l2.map l2.tickets a1).2.2.1,
+        { (matchLoop l1.price taker q l2.map l2.tickets a1).2.2.2 with stats := s'' }) := by
+    rw [← h.price, ha2]; exact hirr
+  generalize hA : matchLoop l1.price taker q l1.map l1.tickets a1 = R1 at e1 e2 e3 q1 hrq
+  generalize hB : matchLoop l1.price taker q l2.map l2.tickets a1 = R2 at e1 e2 e3 q2 hrq hR2
+  have hm1 : l1.matchOrder q taker g = l1.finishMatch taker R1 := by simp only [Level.matchOrder]; rw [hA]
+  have hm2 : l2.matchOrder q taker g = l2.finishMatch taker (R2.1, R2.2.1, R2.2.2.1, { R2.2.2.2 with stats := s'' }) := by
+    simp only [Level.matchOrder]; rw [hR2]
+  rw [hm1, hm2]
+  obtain ⟨r1, m1', t1', ac1⟩ := R1
+  obtain ⟨r2, m2', t2', ac2⟩ := R2
+  simp only at e1 e2 e3 hrq
+  subst e1; subst e2
+  refine ⟨?_, ?_⟩
+  · simp only [Level.finishMatch]
+  · simp only [Level.finishMatch]
+    exact ⟨h.price, rfl, rfl, rfl, hrq.1, hrq.2.1, hrq.2.2.1, hrq.2.2.2.1, hrq.2.2.2.2⟩
+
+
+theorem fromVec_tickets (os : List Order) : (Q.fromVec os).tickets = ids os := by
+  have gen : ∀ (os : List Order) (q : Q), (os.foldl Q.push q).tickets = q.tickets ++ ids os := by
+    intro os
+    induction os with
+    | nil => intro q; simp
+    | cons o rest ih => intro q; rw [List.foldl_cons, ih]; simp [Q.push]
+  simpa [Q.fromVec] using gen os {}
+
+/-- a continuation made of match requests: quantity, taker id -/
+def runMatches (l : Level) (g : Nat) : List (Nat × Id) → List MatchResult × Level × Nat
+  | [] => ([], l, g)
+  | (q, t) :: rest =>
+    let r := l.matchOrder q t g
+    let rr := runMatches r.1 r.2.2 rest
+    (r.2.1 :: rr.1, rr.2.1, rr.2.2)
+
+/-- **every continuation of matches**: indistinguishable levels answer every sequence of match
+    requests identically — transaction by transaction, id by id -/
+theorem matches_sim : ∀ (reqs : List (Nat × Id)) {l1 l2 : Level} (_ : LSim l1 l2) (g : Nat),
+    (runMatches l1 g reqs).1 = (runMatches l2 g reqs).1 ∧ (runMatches l1 g reqs).2.2 = (runMatches l2 g reqs).2.2
+  | [], _, _, _, _ => ⟨rfl, rfl⟩
+  | (q, t) :: rest, l1, l2, h, g => by
+    obtain ⟨e, hs⟩ := match_sim h q t g
+    have e1 : (l1.matchOrder q t g).2.1 = (l2.matchOrder q t g).2.1 := congrArg Prod.fst e
+    have e2 : (l1.matchOrder q t g).2.2 = (l2.matchOrder q t g).2.2 := congrArg Prod.snd e
+    have ih := matches_sim rest hs (l1.matchOrder q t g).2.2
+    simp only [runMatches]
+    rw [e1, ← e2]
+    exact ⟨by rw [ih.1], ih.2⟩
+
+/-- **C11 for the levels where it holds**: if the original's hand-out order is its timestamp-sorted
+    listing at the moment of the snapshot (and its ticket queue holds no duplicate tickets), then the
+    level restored from the snapshot answers every continuation of match requests exactly as the
+    original does -/
+theorem C11_matches {l : Level} (h : l.Inv) (ht : l.tickets.Nodup) (hl : live l = l.listing)
+    (reqs : List (Nat × Id)) (g : Nat) :
+    (runMatches (Level.fromSnapshot l.snapshot) g reqs).1 = (runMatches l g reqs).1 := by
+  have hg := h.snapshot_good
+  obtain ⟨e0, e1, e2, e3, e4, e5⟩ := Level.fromSnapshot_fields l.snapshot hg
+  have hrt := C10.C10_snapshot_roundtrip h
+  have hsim : LSim (Level.fromSnapshot l.snapshot) l := by
+    refine ⟨hrt.1, hrt.2.2.2.1, hrt.2.2.2.2.1, hrt.2.2.2.2.2.1, ⟨?_, hrt.2.2.1⟩, ?_, ht, hrt.2.2.2.2.2.2.nodup, h.nodup⟩
+    · exact (C11_partial h).2 hl
+    · rw [e5, fromVec_tickets]; exact hg.nodup
+  exact (matches_sim reqs hsim g).1
+
 
 def A : Order := ⟨⟨false, 1⟩, 100, 10, .sell, 5, .gtc, .standard⟩   -- arrives first, timestamp 5
 def B : Order := ⟨⟨false, 2⟩, 100, 10, .sell, 3, .gtc, .standard⟩   -- arrives second, timestamp 3
